@@ -27,7 +27,7 @@ META = {
     "exhaustive_tiers": {"quick": {"histories of length <= 2 over 12 operations x 13 configurations": True},
                          "thorough": {"histories of length <= 3 over 12 ops + length 4 over 6 state-touching ops x 13 configurations": True}},
 }
-META["added"] = "Added: regions that do not fill their bounding box (a missing lattice cell; events in the hole are outside), magnitudes far above the last edge in the synthetic catalogs. in-memory forecasts without n_cat (13 configurations), spatial_counts(cartesian=True) as a twelfth operation, empty-first catalog layouts. in-memory catalogs that only declare the forecast's filter statements. region-less in-memory catalogs, reference = equivalent pre-filtered plain forecast. empty observations, id gaps in files, catalogs bound to another region."
+META["added"] = "Added: catalogs gridded on another region before. regions that do not fill their bounding box (a missing lattice cell; events in the hole are outside), magnitudes far above the last edge in the synthetic catalogs. in-memory forecasts without n_cat (13 configurations), spatial_counts(cartesian=True) as a twelfth operation, empty-first catalog layouts. in-memory catalogs that only declare the forecast's filter statements. region-less in-memory catalogs, reference = equivalent pre-filtered plain forecast. empty observations, id gaps in files, catalogs bound to another region."
 MANIFEST = {
     "technique": "sequential history log on a live CatalogForecast checked op-by-op against a reference model (filtered catalog list) and, for evaluations, against the equivalent pre-filtered plain forecast; quiescent-state invariant after each complete operation; exhaustive short histories + random long ones",
     "level_text": "All operation histories up to length 2 (quick) / 3-4 (thorough) over the 12 public operations are enumerated on 13 source/filter configurations; each step's observable result (pass stream, event counts, n_cat, expected rates, marginals, the six evaluations) must equal the single-pass reference regardless of what was called before, and the iterator must be back in its initial state after every complete operation.",
@@ -160,6 +160,12 @@ def build(fc, cfg, tmpdir):
                 if kw["filters"] and i % 3 == 2:
                     # history: the user looked at a filtered copy before (in_place=False leaves this catalog itself unfiltered)
                     c.filter(list(kw["filters"]), in_place=False)
+            if creg is not None and creg is not reg and i % 2 == 0:
+                # history: the catalog was gridded on the other region (it took part in another forecast's evaluation) before
+                try:
+                    c.spatial_counts()
+                except Exception:  # noqa
+                    pass
             cats.append(c)
         if cfg["source"] == "memory":
             kw["n_cat"] = len(cats)
